@@ -12,7 +12,7 @@ LEVEL = "exploration"
 TECHNIQUE = "Hypothesis-generated datasets and sampler histories; every random draw is intercepted and its parameters compared with an independently derived full conditional computed from the live state; exact affine check of the MVN routine"
 RULE = (
     "observed arity-2 datasets (1..5 samples, 2..7 treatments + control, 3..30 rows mixing combinations and single-agent rows, treatments seen only in the first, only "
-    "in the second or in both positions, samples/treatments of the experiment space without data), D in 1..4, 2..6 sampler steps under the default options (the generator handed over by set_rng, or in one case of four the one the constructor defaults leave), with "
+    "in the second or in both positions, samples/treatments of the experiment space without data), D in 1..4 (sometimes 7, 8, 12), 2..6 sampler steps (plus fixed long chains: D 16..24, 60 steps on a small dataset, where the embedding scales reach their upper bound) under the default options (the generator handed over by set_rng, or in one case of four the one the constructor defaults leave), with "
     "reset_model calls and a second batch of observations between steps (the histories sampling.sample and repeated training produce); per step all 12 blocks are observed. Non-trivial = a checked draw for a coordinate with >=1 observation while some embedding is non-zero (from step 2 on); distinct = distinct "
     "case JSON; per-block draw counts are in counters."
 )
@@ -41,10 +41,12 @@ def _case(draw):
         "screen": sc,
         "extra_samples": draw(st.integers(0, 2)),
         "extra_treatments": draw(st.integers(0, 2)),
-        "D": draw(st.sampled_from([1, 2, 2, 3, 3, 4])),
+        "D": draw(st.sampled_from([1, 2, 2, 3, 3, 4, 7, 8, 12])),
         "steps": draw(st.integers(2, 6)),
         # history between the steps: reset_model (as sampling.sample does before every chain) and a second batch of observations
-        "events": draw(st.lists(st.sampled_from(["none", "none", "none", "reset", "add"]), min_size=6, max_size=6)),
+        # ("shrink": the sample embeddings are scaled down to near zero - where the sampler drifts when the embedding scales grow - and the
+        # fitted values are rebuilt, so that states with very large embedding scales are reached within a few steps)
+        "events": draw(st.lists(st.sampled_from(["none", "none", "none", "reset", "add", "shrink"]), min_size=6, max_size=6)),
         "first_batch": draw(st.integers(1, 30)),
         "seed": draw(st.integers(0, 2**31 - 1)),
         # one case in four: the model keeps the generator its constructor's defaults give it (no set_rng)
@@ -54,6 +56,16 @@ def _case(draw):
 
 def strategy(tier):
     return _case()
+
+
+_LONG_SCREEN = {"arity": 2, "control": "ctl", "ns": 2, "nt": 6, "observed": [], "rows": [{"s": "s0", "p": "p0", "t": ["t0", "t1"], "d": [1.0, 1.0], "o": 0.3}, {"s": "s0", "p": "p0", "t": ["t1", "t2"], "d": [1.0, 1.0], "o": 0.5}, {"s": "s1", "p": "p0", "t": ["t0", "t2"], "d": [1.0, 1.0], "o": 0.7}, {"s": "s1", "p": "p0", "t": ["t2", "t1"], "d": [2.0, 1.0], "o": 0.2}, {"s": "s0", "p": "p0", "t": ["t0", "ctl"], "d": [1.0, 0.0], "o": 0.6}, {"s": "s1", "p": "p0", "t": ["ctl", "t1"], "d": [0.0, 1.0], "o": 0.4}, {"s": "s0", "p": "p0", "t": ["t2", "t0"], "d": [1.0, 2.0], "o": 0.8}, {"s": "s1", "p": "p0", "t": ["t1", "t0"], "d": [1.0, 1.0], "o": 0.35}]}
+
+
+def exhaustive(tier):
+    # long chains with many embedding dimensions on a small dataset: the multiplicative embedding scales reach their upper bound
+    # (1e6) only after some tens of sweeps - states no short history visits
+    for D, seed in ([(20, 1), (20, 2), (16, 3)] if tier == "quick" else [(20, s_) for s_ in range(1, 7)] + [(16, 3), (24, 4)]):
+        yield {"screen": _LONG_SCREEN, "extra_samples": 0, "extra_treatments": seed % 2, "D": D, "steps": 60, "events": ["none"] * 6, "first_batch": 30, "seed": seed, "default_generator": False}
 
 
 class Recorder:
@@ -441,6 +453,10 @@ def check_case(case):
                 if ev == "reset" and step > 0:
                     model.reset_model()
                     counts["resets"] += 1
+                elif ev == "shrink" and step > 0:
+                    wm.W[...] = np.asarray(wm.W) * (1e-3 if step % 2 else 1e-6)
+                    attach(wm, "_reconstruct_Mu")()
+                    counts["shrinks"] += 1
                 elif ev == "add" and pending_second_batch:
                     model.add_observations(screen.subset(~first))
                     pending_second_batch = False
